@@ -291,3 +291,116 @@ class TarW(Backend):
 
 ALL = [Mem, OS, Temp, SubMem, SubOS, SubSub, Wrap, WrapOS, MountDefault, MountSub, MultiOne, ZipW, TarW]
 BY_NAME = dict((b.name, b) for b in ALL)
+
+
+# ---------------------------------------------------------------- fs.wrap wrappers (NOT in ALL: used by C10/C11/C13 only)
+
+class CachedDirMem(Backend):
+    """fs.wrap.cache_directory(MemoryFS): serves directory information from a per-instance cache."""
+    name = "cache_directory(MemoryFS)"
+
+    def make(self):
+        from fs.memoryfs import MemoryFS
+        from fs.wrap import cache_directory
+        self.inner = MemoryFS()
+        self.fs = cache_directory(self.inner)
+        return self.fs
+
+    def snapshot(self):     # the storage, not the (possibly stale, by design) cached view
+        return fsops.snap_memoryfs(self.inner)
+
+
+class CachedDirOS(OS):
+    name = "cache_directory(OSFS)"
+
+    def make(self):
+        from fs.wrap import cache_directory
+        OS.make(self)
+        self.inner = self.fs
+        self.fs = cache_directory(self.inner)
+        return self.fs
+
+
+class CachedDirSub(SubMem):
+    name = "cache_directory(SubFS(MemoryFS))"
+
+    def make(self):
+        from fs.wrap import cache_directory
+        SubMem.make(self)
+        self.inner = self.fs
+        self.fs = cache_directory(self.inner)
+        return self.fs
+
+
+class SubCachedDir(Backend):
+    name = "SubFS(cache_directory(MemoryFS))"
+
+    def make(self):
+        from fs.memoryfs import MemoryFS
+        from fs.wrap import cache_directory
+        self.parent = MemoryFS()
+        self.parent.makedirs("top/sub")
+        self.parent.writebytes("top/canary", b"canary")
+        self.cached = cache_directory(self.parent)
+        self.fs = self.cached.opendir("top/sub")
+        self.inner = self.parent.opendir("top/sub")
+        return self.fs
+
+    snapshot = SubMem.snapshot
+
+
+class ReadOnlyMem(Backend):
+    """fs.wrap.read_only(MemoryFS): content is prepared through `inner`, calls go through the wrapper."""
+    name = "read_only(MemoryFS)"
+    setup_via_inner = True
+
+    def make(self):
+        from fs.memoryfs import MemoryFS
+        from fs.wrap import read_only
+        self.inner = MemoryFS()
+        self.fs = read_only(self.inner)
+        return self.fs
+
+    def snapshot(self):
+        return fsops.snap_memoryfs(self.inner)
+
+
+class ReadOnlyOS(OS):
+    name = "read_only(OSFS)"
+    setup_via_inner = True
+
+    def make(self):
+        from fs.wrap import read_only
+        OS.make(self)
+        self.inner = self.fs
+        self.fs = read_only(self.inner)
+        return self.fs
+
+
+class ReadOnlyCachedDir(ReadOnlyMem):
+    name = "read_only(cache_directory(MemoryFS))"
+    setup_via_inner = True
+
+    def make(self):
+        from fs.memoryfs import MemoryFS
+        from fs.wrap import read_only, cache_directory
+        self.inner = MemoryFS()
+        self.fs = read_only(cache_directory(self.inner))
+        return self.fs
+
+
+class CachedDirReadOnly(ReadOnlyMem):
+    name = "cache_directory(read_only(MemoryFS))"
+    setup_via_inner = True
+
+    def make(self):
+        from fs.memoryfs import MemoryFS
+        from fs.wrap import read_only, cache_directory
+        self.inner = MemoryFS()
+        self.fs = cache_directory(read_only(self.inner))
+        return self.fs
+
+
+WRAPPERS = [CachedDirMem, CachedDirOS, CachedDirSub, SubCachedDir, ReadOnlyMem, ReadOnlyOS, ReadOnlyCachedDir,
+            CachedDirReadOnly]
+BY_NAME.update((b.name, b) for b in WRAPPERS)
